@@ -429,7 +429,6 @@ var rR17 = RuleRef{Name: "R17", Doc: "guarded shared state: every access to Chan
 		c.Undecided("R17", "anchor (*MemDb).CheckTTL")
 		return
 	}
-	lf := la.flow(check)
 	nDel := 0
 	// helpers that read a deadline: they fetch ttlKeys.Get(param i) and look at TTLInfo.value
 	deadlineReader := func(fn *ssa.Function) int {
@@ -464,75 +463,124 @@ var rR17 = RuleRef{Name: "R17", Doc: "guarded shared state: every access to Chan
 		}
 		return "", false
 	}
-	for _, b := range check.Blocks {
-		for _, in := range b.Instrs {
-			ci, ok := in.(*ssa.Call)
-			if !ok {
-				continue
-			}
-			what := ""
-			if a := c.keyspaceAccess(ci); a != nil && a.Write {
-				what = a.Map + "." + a.Method
-			} else if n, ok := removerCall(ci); ok {
-				what = "deadline removal through " + n
-			}
-			if what == "" {
-				continue
-			}
-			nDel++
-			okDecision := false
-			for d := b; d != nil && !okDecision; d = d.Idom() {
-				id := d.Idom()
-				if id == nil || len(id.Instrs) == 0 {
+	// the expiry routine itself, plus everything a timer goroutine runs on its own (a `go` statement in memdb whose body,
+	// or a first-party callee other than the expiry routine, writes the keyspace): such code runs at an arbitrary later
+	// time and must re-validate the deadline exactly as the lazy routine does.
+	deciders := []*ssa.Function{check}
+	for _, g := range c.P.allFuncs("memdb") {
+		for _, b := range g.Blocks {
+			for _, in := range b.Instrs {
+				gi, ok := in.(*ssa.Go)
+				if !ok {
 					continue
 				}
-				iff, isIf := id.Instrs[len(id.Instrs)-1].(*ssa.If)
-				if !isIf {
+				var root *ssa.Function
+				if mc, ok := gi.Call.Value.(*ssa.MakeClosure); ok {
+					root, _ = mc.Fn.(*ssa.Function)
+				} else {
+					root = gi.Call.StaticCallee()
+				}
+				if root == nil || pkgRel(root) != "memdb" {
 					continue
 				}
-				readsValue, lockedGet := false, false
-				conds := []ssa.Value{iff.Cond}
-				// a short-circuit condition: look at the comparisons feeding the boolean phi as well
-				if phi, ok := iff.Cond.(*ssa.Phi); ok {
-					conds = append(conds, phi.Edges...)
-					for _, p := range phi.Block().Preds {
-						if len(p.Instrs) > 0 {
-							if pif, ok := p.Instrs[len(p.Instrs)-1].(*ssa.If); ok {
-								conds = append(conds, pif.Cond)
+				seen := map[*ssa.Function]bool{check: true}
+				var visit func(f *ssa.Function, d int)
+				visit = func(f *ssa.Function, d int) {
+					if f == nil || seen[f] || f.Blocks == nil || pkgRel(f) != "memdb" || d > 4 {
+						return
+					}
+					seen[f] = true
+					writes := false
+					for _, fb := range f.Blocks {
+						for _, fi := range fb.Instrs {
+							if call, ok := fi.(*ssa.Call); ok {
+								if a := c.keyspaceAccess(call); a != nil && a.Write && (a.Map == "db" || a.Map == "ttlKeys") {
+									writes = true
+								}
+								visit(callee(call), d+1)
 							}
 						}
 					}
+					if writes {
+						deciders = append(deciders, f)
+					}
 				}
-				for _, cond := range conds {
-					backslice(cond, func(v ssa.Value) bool {
-						if fa, ok := v.(*ssa.FieldAddr); ok && fieldName(fa) == "value" && namedOf(fa.X.Type()) == "TTLInfo" {
-							readsValue = true
-						}
-						if call, ok := v.(*ssa.Call); ok {
-							held, _ := lf.Held(call)
-							if ga := c.keyspaceAccess(call); ga != nil && ga.Map == "ttlKeys" && ga.Method == "Get" {
-								for _, h := range held {
-									if covers(h, canon(ga.Key)) {
-										lockedGet = true
-									}
-								}
-							} else if pi := deadlineReader(callee(call)); pi >= 0 && pi < len(call.Call.Args) {
-								for _, h := range held {
-									if covers(h, canon(call.Call.Args[pi])) {
-										lockedGet, readsValue = true, true
-									}
+				visit(root, 0)
+			}
+		}
+	}
+	for _, check := range deciders {
+		lf := la.flow(check)
+		for _, b := range check.Blocks {
+			for _, in := range b.Instrs {
+				ci, ok := in.(*ssa.Call)
+				if !ok {
+					continue
+				}
+				what := ""
+				if a := c.keyspaceAccess(ci); a != nil && a.Write {
+					what = a.Map + "." + a.Method
+				} else if n, ok := removerCall(ci); ok {
+					what = "deadline removal through " + n
+				}
+				if what == "" {
+					continue
+				}
+				nDel++
+				okDecision := false
+				for d := b; d != nil && !okDecision; d = d.Idom() {
+					id := d.Idom()
+					if id == nil || len(id.Instrs) == 0 {
+						continue
+					}
+					iff, isIf := id.Instrs[len(id.Instrs)-1].(*ssa.If)
+					if !isIf {
+						continue
+					}
+					readsValue, lockedGet := false, false
+					conds := []ssa.Value{iff.Cond}
+					// a short-circuit condition: look at the comparisons feeding the boolean phi as well
+					if phi, ok := iff.Cond.(*ssa.Phi); ok {
+						conds = append(conds, phi.Edges...)
+						for _, p := range phi.Block().Preds {
+							if len(p.Instrs) > 0 {
+								if pif, ok := p.Instrs[len(p.Instrs)-1].(*ssa.If); ok {
+									conds = append(conds, pif.Cond)
 								}
 							}
-							return false
 						}
-						return true
-					})
+					}
+					for _, cond := range conds {
+						backslice(cond, func(v ssa.Value) bool {
+							if fa, ok := v.(*ssa.FieldAddr); ok && fieldName(fa) == "value" && namedOf(fa.X.Type()) == "TTLInfo" {
+								readsValue = true
+							}
+							if call, ok := v.(*ssa.Call); ok {
+								held, _ := lf.Held(call)
+								if ga := c.keyspaceAccess(call); ga != nil && ga.Map == "ttlKeys" && ga.Method == "Get" {
+									for _, h := range held {
+										if covers(h, canon(ga.Key)) {
+											lockedGet = true
+										}
+									}
+								} else if pi := deadlineReader(callee(call)); pi >= 0 && pi < len(call.Call.Args) {
+									for _, h := range held {
+										if covers(h, canon(call.Call.Args[pi])) {
+											lockedGet, readsValue = true, true
+										}
+									}
+								}
+								return false
+							}
+							return true
+						})
+					}
+					if readsValue && lockedGet {
+						okDecision = true
+					}
 				}
-				if readsValue && lockedGet {
-					okDecision = true
-				}
+				c.Add("R17", fnName(check), fmt.Sprintf("%s decided on a deadline read under the key's stripe", what), ci.Pos(), okDecision, "the removal must be control-dependent on a comparison of TTLInfo.value taken from a ttlKeys.Get made while the stripe is held (double-checked expiry)")
 			}
-			c.Add("R17", fnName(check), fmt.Sprintf("%s decided on a deadline read under the key's stripe", what), ci.Pos(), okDecision, "the removal must be control-dependent on a comparison of TTLInfo.value taken from a ttlKeys.Get made while the stripe is held (double-checked expiry)")
 		}
 	}
 	c.Count("R17_expiry_removals", nDel)
